@@ -217,7 +217,7 @@ def stab_body(ctx, p):
     try:
         scr = c04.make("vk", p, rng)
     except (linalg.LinAlgError, np.linalg.LinAlgError):
-        ctx.reject("documented_LinAlgError_on_construction")
+        c04.refused(ctx, p)
         return
     nx, nc = p["nx"], p["ncol"]
     ctx.case(p, nontrivial=nc >= 2 and nx >= 4, classes=["ncol%d" % nc])
